@@ -460,7 +460,15 @@ class Renderer:
             if not any(c in "\t\n\r<&" for c in mid):
                 name = "av%d" % len(self.entities)
                 lq = rnd.choice("'\"")
-                src = "".join({"'": "&apos;", '"': "&quot;", "%": "&#37;"}.get(c, c) for c in mid)
+                # a logical space may be written as any literal white space inside the entity literal too
+                # (3.3.3 applies to replacement text); a lone CR only where no LF can follow it
+                src = ""
+                for k, c in enumerate(mid):
+                    if c == " " and rnd.random() < 0.5:
+                        nxt = mid[k + 1] if k + 1 < len(mid) else None
+                        src += rnd.choice(["\t", "\n", "\r\n"] + (["\r"] if nxt not in (None, " ") else []))
+                    else:
+                        src += {"'": "&apos;", '"': "&quot;", "%": "&#37;"}.get(c, c)
                 self.entities.append((name, lq, src))
                 return render_attr_value(v[:a], rnd, q) + "&" + name + ";" + render_attr_value(v[b2:], rnd, q)
         if self.hoist and ent_q is None and rnd.random() < 0.1:
